@@ -428,7 +428,7 @@ def h_constrained_path(I, fi):
             raise PathEnd()
         if pl[0] == "outlier":
             dsl.cover(I_, "path.outlier")
-            P.check("L2.placement[outlier]", P.z(lab) == -1 and new_tree.dp is dp, "a data point that is an outlier in the conditioned tree is added to the outliers", kind="post")
+            P.check("L2.placement[outlier]", dsl.conj(new_tree.dp is dp, P.z(lab) == -1), "a data point that is an outlier in the conditioned tree is added to the outliers", kind="post")
         elif pl[0] == "exist":
             dsl.cover(I_, "path.existing-clone")
             P.check("L2.placement[existing]", z3.And(P.z(lab) != -1, mapped(P.z(lab)), P.z(I_.to_num(pl[1])) == P.z(alg.raw_app("image", lab, sort="Int"))) if new_tree.dp is dp else False,
